@@ -268,7 +268,7 @@ func (w *world) concretise(variant int) {
 	w.series = seriesTables[(variant/5)%len(seriesTables)]
 	w.absent = 5
 	// payload size class
-	sizes := []int{0, 0, 1, 0, 300, 0, 5000, 0}
+	sizes := []int{0, 0, 1, 0, 300, 0, 5000, 70000}
 	w.payload = sizes[(variant/7)%len(sizes)]
 	if w.cfg.Fat > 0 {
 		fatSizes := []int{0, 40, 300, 0, 1200}
